@@ -30,6 +30,9 @@ func runC14(c *Ctx) {
 	c14Reentrant(c)
 	c14PoolAccounting(c)
 	c19Recheck(c, "C14")
+	// "do not crash": a served backend closed by a late reload result, or a reader released twice, is a use after
+	// close / unmap under the feet of in-flight queries (seeds c14f, c14g)
+	c.importRules(runC06, "C06", map[string]string{"alias-guard": "served-not-closed", "pairing": "reader-pairing", "handshake": "late-result"})
 }
 
 // lockClassOf names the class of a mutex from the receiver of a Lock call:
